@@ -12,7 +12,7 @@ ASSUMPTIONS = [
     'program shape from the seeded catalogue family "rec": linear/left/non-linear/disjunctive transitive closure, same generation, reachability, mutual recursion cut by one predicate (vertical unfolding; containment clause only), two- and three-predicate cycles that cannot be cut (flat unfolding), Min= shortest path (unit and weighted), multiset and distinct counters; depths 1,2,3 and the default 8; family "recdeep": depths 21,22,24 compiled to the iterative plan (@Iteration, @Ground tables) and executed by the real concertina_lib.ExecuteLogicaProgram with a symbolic sql_runner',
     'database: all graphs with <=K edges (K=3, K=2 for the 3-atom and mutual programs) over arbitrary integer node identities',
     'exact clause: result == T^(depth+1)(empty); containment clause (vertical unfolding): T^(depth+1)(empty) <= result <= T^(cycle*(depth+1))(empty) <= lfp, a counterexample to the upper bound is only reported when the replayed result leaves the concretely computed least fixpoint',
-    'trusted: lv/sqlsem.py, lv/refsem.py (iteration from empty relations), z3; outside: diamond mode, stop signals, depth infinity',
+    'trusted: lv/sqlsem.py, lv/refsem.py (iteration from empty relations), z3; outside: diamond mode, stop signals, depth infinity, execution of an iterative plan as a plain script without concertina_lib (logica.py run on SQLite)',
 ]
 
 
